@@ -48,6 +48,9 @@ func newRunCommand() *cli.Command {
 				return fmt.Errorf("no target specified")
 			}
 
+			// contexts are shut down once, after the last target
+			defer taskRunner.Finish()
+
 			for _, v := range c.Args().Slice() {
 				if v == "--" {
 					break
@@ -70,6 +73,9 @@ func newRunCommand() *cli.Command {
 				ArgsUsage: "task (TASK1) [TASK2]... [flags] [-- TASK_ARGS]",
 				Usage:     "run specified task(s)",
 				Action: func(c *cli.Context) error {
+					// contexts are shut down once, after the last task
+					defer taskRunner.Finish()
+
 					for _, v := range c.Args().Slice() {
 						if v == "--" {
 							break
@@ -123,9 +129,8 @@ func runPipeline(g *scheduler.ExecutionGraph, taskRunner *runner.TaskRunner, sum
 		sd.Cancel()
 	}()
 
+	// the caller shuts the contexts down once all its targets have run
 	err := sd.Schedule(g)
-	// contexts are shut down whether the pipeline succeeded or not
-	sd.Finish()
 	if err != nil {
 		return err
 	}
@@ -140,11 +145,8 @@ func runPipeline(g *scheduler.ExecutionGraph, taskRunner *runner.TaskRunner, sum
 }
 
 func runTask(t *task.Task, taskRunner *runner.TaskRunner) error {
-	err := taskRunner.Run(t)
-	// contexts are shut down whether the task succeeded or not
-	taskRunner.Finish()
-
-	return err
+	// the caller shuts the contexts down once all its targets have run
+	return taskRunner.Run(t)
 }
 
 func taskArgs(c *cli.Context) []string {
